@@ -401,5 +401,5 @@ cases = st.fixed_dictionaries({"shape": gen.shapes(1, 3, 3, 1), "coords": st.sam
 
 
 def checks(tier):
-    n = {"quick": 4000, "thorough": 100000}.get(tier, 10)
+    n = {"quick": 4000, "thorough": 40000}.get(tier, 10)
     return [Check("data_histories", fn_history, strategy=cases, examples=n)]
